@@ -601,9 +601,11 @@ def _selectors(r, ns, nc, cs, cache):
             a = r.choice([near(), near(), None, r.randrange(-ns, ns), 0])
             span = r.choice([1, 2, cs - 1, cs, cs + 1, 2 * cs + 1, 3 * cs, (cache + 1) * cs + 3, ns])
             b = None if r.random() < 0.1 else ((a or 0) + span if r.random() < 0.8 else near())
-            step = r.choice([None, None, 1, 2, 3, 7])
+            step = r.choice([None, None, 1, 2, 3, 7, -1, -1, -2, -7])
+            if step is not None and step < 0:
+                a, b = b, a          # a decreasing slice: from the far end back towards the near one
             n = slice(a, b, step)
-            cls = "slice" + ("+step" if step and step > 1 else "") + (">cache" if span > cache * cs else "")
+            cls = "slice" + ("+step" if step and step > 1 else "-step" if step and step < 0 else "") + (">cache" if span > cache * cs else "")
         else:
             a = near()
             n = slice(a, a + r.choice([0, -1, -5]))  # empty
